@@ -23,6 +23,10 @@
                         ledger states s and s' (ms_next s <= b < ms_next s'), and -- when every live block
                         of s has an id below ms_next s ([ledger_wf], true of ms_init and kept by alloc and
                         free) -- none of them was live before the call.
+     path_guard mask u  the path step of the normalisation of u with this mask inserts the "." segment in front
+                        of a host-less path that would begin with "//" (uriFixAmbiguity fires): the PATH bit is
+                        set and, after the dot segments were removed, the path is absolute with an empty first
+                        segment and a second one, or not absolute, host-less, with two empty segments in front
    "Overwriting or releasing the original string changes nothing" is stated as: after the operation
    depends_on_input = false and the blocks are fresh_blocks, i.e. no component refers to caller memory
    or to a block that existed before; the values (erase, to_text) are functions of the object alone.
@@ -117,15 +121,49 @@ Theorem C12_normalize_borrowed : forall csize mask m s, nofault s -> mwf m -> m_
 Proof. exact C12_normalize_borrowed_stmt. Qed.
 Print Assumptions C12_normalize_borrowed.
 
-(* any non-zero mask, owned object: normalised in place; it still owns all its text and holds no block
-   it did not hold before *)
-Theorem C12_normalize_owned : forall csize mask m s, nofault s -> mwf m -> m_owner m = true -> mask <> 0 ->
+(* any non-zero mask, owned object whose text blocks were handed out by this ledger: normalised in place;
+   it still owns all its text; a text block of the result is a text block it held before or was handed
+   out during the call, and it holds no block it did not hold before unless the guard against a path
+   beginning with "//" inserts its "." segment, whose one character is copied into a block of its own.
+   (Before uriNormalizeSyntaxEngine called uriFixAmbiguity the conclusion was
+   [incl (text_blocks m') (text_blocks m)] without condition and without the hypothesis on the block ids:
+   C12_normalize_owned_new_block and C12_normalize_owned_future_block show why both had to change.) *)
+Theorem C12_normalize_owned : forall csize mask m s, nofault s -> mwf m -> m_owner m = true ->
+  Forall (fun b => (b < ms_next s)%nat) (text_blocks m) -> mask <> 0 ->
   exists m' s', normalize_m csize mask m s = (URI_SUCCESS, m', s')
     /\ erase m' = normalize mask (erase m)
     /\ m_owner m' = true /\ all_owned m' = true /\ depends_on_input m' = false
-    /\ mwf m' /\ incl (text_blocks m') (text_blocks m) /\ nofault s'.
+    /\ mwf m'
+    /\ (forall b, In b (text_blocks m') -> In b (text_blocks m) \/ (ms_next s <= b < ms_next s')%nat)
+    /\ (path_guard mask (erase m) = false -> incl (text_blocks m') (text_blocks m))
+    /\ nofault s'.
 Proof. exact C12_normalize_owned_stmt. Qed.
 Print Assumptions C12_normalize_owned.
+
+(* value and ownership of the in-place normalisation need no hypothesis on the block ids *)
+Theorem C12_normalize_owned_value : forall csize mask m s, nofault s -> mwf m -> m_owner m = true -> mask <> 0 ->
+  exists m' s', normalize_m csize mask m s = (URI_SUCCESS, m', s')
+    /\ erase m' = normalize mask (erase m)
+    /\ m_owner m' = true /\ all_owned m' = true /\ depends_on_input m' = false /\ nofault s'.
+Proof. exact C12_normalize_owned_value_stmt. Qed.
+Print Assumptions C12_normalize_owned_value.
+
+(* "/.//x" parsed, made owner, normalised with the PATH bit: the guard fires and the result holds a text
+   block the object did not hold *)
+Theorem C12_normalize_owned_new_block :
+  exists m s, nofault s /\ mwf m /\ m_owner m = true /\ Forall (fun b => (b < ms_next s)%nat) (text_blocks m)
+    /\ path_guard 8 (erase m) = true
+    /\ exists m' s', normalize_m 1 8 m s = (URI_SUCCESS, m', s') /\ ~ incl (text_blocks m') (text_blocks m).
+Proof. exact normalize_owned_new_block_witness. Qed.
+Print Assumptions C12_normalize_owned_new_block.
+
+(* an owned object that records a block id the ledger has not handed out yet is handed that id for the "."
+   copy: the text blocks of the result are not pairwise distinct *)
+Theorem C12_normalize_owned_future_block :
+  nofault (ms_init NoFault) /\ mwf future_owned /\ m_owner future_owned = true
+  /\ exists m' s', normalize_m 1 8 future_owned (ms_init NoFault) = (URI_SUCCESS, m', s') /\ ~ mwf m'.
+Proof. exact normalize_owned_future_block_witness. Qed.
+Print Assumptions C12_normalize_owned_future_block.
 
 (* mask 0: nothing changes, not even ownership, under any fault plan *)
 Theorem C12_normalize_zero : forall csize m s,
@@ -244,7 +282,10 @@ Theorem C12_normalize_live : forall csize mask m s, wf s -> nofault s -> owns m 
   exists m' s', normalize_m csize mask m s = (URI_SUCCESS, m', s')
     /\ erase m' = normalize mask (erase m)
     /\ m_owner m' = true /\ all_owned m' = true /\ depends_on_input m' = false
-    /\ mwf m' /\ (m_owner m = false -> fresh_blocks s s' m') /\ (m_owner m = true -> incl (text_blocks m') (text_blocks m))
+    /\ mwf m' /\ (m_owner m = false -> fresh_blocks s s' m')
+    /\ (m_owner m = true ->
+          (forall b, In b (text_blocks m') -> In b (text_blocks m) \/ (ms_next s <= b < ms_next s')%nat)
+          /\ (path_guard mask (erase m) = false -> incl (text_blocks m') (text_blocks m)))
     /\ nofault s'
     /\ wf s' /\ owns m' s' /\ bad_frees s' = bad_frees s
     /\ NoDup (muri_blocks m') /\ incl (muri_blocks m') (live_ids s') /\ incl (text_blocks m') (live_ids s')
